@@ -355,7 +355,7 @@ def defects(rnd, rows):
             yield "empty-mark:%s" % bad, mod(i, 3, bad), i
         for bad in ("Foo", "Inte ger", "Integer.", ".Integer", "1nteger", "integer", "Text-", "Abstract", "fields.Abstract", "FieldFormat", "IntegerFieldFormat", ""[0:0] + "AbstractFieldFormat"):
             yield "field-type:%s" % bad, mod(i, 5, bad), i
-        for bad in ("x", "1...2...3", "3...2", "1,,"[:2] + "..", "-2...-1"):
+        for bad in ("x", "1...2...3", "3...2", "1,,"[:2] + "..", "-2...-1", "1...5, 5...9", "4, 4"):
             yield "length:%s" % bad, mod(i, 4, bad), i
         if fmt == "fixed":
             yield "fixed-no-length", mod(i, 4, ""), i
@@ -366,6 +366,8 @@ def defects(rnd, rows):
             yield "fixed-length-open-below-then-exact", mod(i, 4, "...2, 3"), i
             yield "fixed-length-exact-then-open-above", mod(i, 4, "3, 5..."), i
             yield "fixed-length-two-exact", mod(i, 4, "3, 5"), i
+            yield "fixed-length-same-number-twice", mod(i, 4, "5, 5"), i
+            yield "fixed-length-touching-items", mod(i, 4, "5...5, 5"), i
         ftype = rows[i][5]
         bad_rule = {"Integer": "1...x", "Decimal": "1...a", "Choice": "a,,b", "Constant": "a b"}.get(ftype)
         if bad_rule:
